@@ -184,7 +184,7 @@ func longInputWorkload(count map[string]int) *Workload {
 			c.Files[0].Data = append(QBytes(sb.String()), c.Files[0].Data...)
 			c.Files[0].Sched = nil
 			// every pattern rule with a body gets an unconditional signal placement drawn anew
-			via := []string{"", "if", "func", "func2", "forin", "while", "match", "forpost", "whilecond"}[t.Draw(9)]
+			via := []string{"", "if", "func", "func2", "forin", "while", "match", "forpost", "whilecond", "forinit"}[t.Draw(10)]
 			hasPattern := false
 			for k := range c.Prog.Rules {
 				r := &c.Prog.Rules[k]
